@@ -480,12 +480,10 @@ mut('f12-size-without-range', ['C15','C18'], ['F12'], [('values/arrays.go',
 ''',
  '''''')], 'size answers 0 for a range again')
 mut('p13-int-on-any-integer', ['C01'], ['P13'], [('values/value.go',
- '''	if n, ok := v.value.(int); ok {
-		return n
-	}''',
- '''	if rv := reflect.ValueOf(v.value); isIntKind(rv.Kind()) {
-		return int(rv.Int())
-	}''')], 'reflect Int on a value that may be unsigned')
+ '''	case rv.IsValid() && rv.CanInt() && int64(int(rv.Int())) == rv.Int():
+		return int(rv.Int())''',
+ '''	case rv.IsValid() && rv.Kind() != reflect.String && int64(int(rv.Int())) == rv.Int():
+		return int(rv.Int())''')], 'reflect Int on a value that may be unsigned, a float, a bool')
 mut('e11-flush-after-failure', ['C20'], ['E11'], [('render/render.go',
  '''	if err := node.render(&tw, newNodeContext(vars, c)); err != nil {
 		return err
@@ -527,28 +525,22 @@ mut('x18-empty-needle', ['C09'], ['X18'], [('expressions/builders.go',
 mut('x19-round-float-index', ['C08'], ['X19'], [('values/value.go',
  '''	case float64:
 		n = int(ix)
-	default:
-		return nilValue
-	}
-	if n < 0 {''',
+	default:''',
  '''	case float64:
 		n = int(ix + 0.5)
-	default:
-		return nilValue
-	}
-	if n < 0 {''')], 'a fractional index is rounded instead of truncated')
+	default:''')], 'a fractional index is rounded instead of truncated')
 mut('f13-round-to-even', ['C17'], ['F13'], [('filters/standard_filters.go',
  '''		return math.Floor(n*exp+0.5) / exp''',
  '''		return math.RoundToEven(n*exp) / exp''')], "banker's rounding")
 mut('f14-fixed-float-text', ['C16'], ['F14'], [('values/convert.go',
- '''		switch value := value.(type) {
-		case []byte:
-			return string(value), nil''',
- '''		switch value := value.(type) {
-		case float64:
+ '''		case []byte:
+			return string(value), nil
+		case fmt.Stringer:''',
+ '''		case float64:
 			return strconv.FormatFloat(value, 'f', -1, 64), nil
 		case []byte:
-			return string(value), nil''')], 'a float argument of a string filter never uses the exponent form that printing uses')
+			return string(value), nil
+		case fmt.Stringer:''')], 'a float argument of a string filter never uses the exponent form that printing uses')
 mut('x7-nil-struct-pointer', ['C10', 'C09'], ['X7'], [('values/value.go',
  '''		if rv.IsNil() {
 			return nilValue
